@@ -399,6 +399,101 @@ def oracle(c, problems, stats):
     stats["hist_constant" if xmin == xmax else "hist_nonconstant"] += 1
 
 
+def oracle_purity(c, problems, stats):
+    """(1) no public helper modifies its arguments (byte comparison); (2) the result does not depend on whether the
+    arguments share memory (same object, reversed view, overlapping windows of one buffer) — compared with the call on
+    independent copies; (3) a sequence of calls on the same array objects gives what the calls give on fresh copies."""
+    from ibicus.utils import _math_utils as M
+    from ibicus.utils import _utils as U
+
+    cj = case_json(c)
+    x0, y0, y20, vals0, ps0 = c["x"], c["y"], c["y2"], c["vals"], c["ps"]
+    k = c["k"]
+    em, im = EM[k % 3], IM[k % 9]
+
+    def bad(desc, sig, **extra):
+        problems.append((desc, {**cj, **extra}, sig))
+
+    def same(a, b):
+        a, b = np.asarray(a), np.asarray(b)
+        return a.shape == b.shape and a.dtype == b.dtype and (a.tobytes() == b.tobytes() or np.array_equal(a, b, equal_nan=True))
+
+    def call(f, *args):
+        with warnings.catch_warnings(), np.errstate(all="ignore"):
+            warnings.simplefilter("ignore")
+            return np.asarray(f(*args))
+
+    cdf_vals = np.sort(np.clip(np.abs(np.asarray(x0, dtype=float)) / (1 + np.abs(np.asarray(x0, dtype=float)).max()), 0, 1))
+    calls = [
+        ("ecdf", M.ecdf, lambda: [x0.copy(), vals0.copy(), em]),
+        ("iecdf", M.iecdf, lambda: [y0.copy(), ps0.copy(), im]),
+        ("quantile_map_non_parametically", M.quantile_map_non_parametically, lambda: [x0.copy(), y0.copy(), vals0.copy(), em, im]),
+        ("quantile_map_non_parametically_with_constant_extrapolation", M.quantile_map_non_parametically_with_constant_extrapolation,
+         lambda: [x0.copy(), y0.copy(), vals0.copy(), em, im]),
+        ("quantile_map_x_on_y_non_parametically", M.quantile_map_x_on_y_non_parametically, lambda: [x0.copy(), y0.copy(), "normal", em, im]),
+        ("quantile_map_x_on_y_non_parametically[isimipv3.0]", M.quantile_map_x_on_y_non_parametically, lambda: [x0.copy(), y0.copy(), "isimipv3.0"]),
+        ("sort_array_like_another_one", U.sort_array_like_another_one, lambda: [x0.copy(), y20.copy()]),
+        ("interp_sorted_cdf_vals_on_given_length", U.interp_sorted_cdf_vals_on_given_length, lambda: [cdf_vals.copy(), 1 + k % 9]),
+        ("threshold_cdf_vals", U.threshold_cdf_vals, lambda: [ps0.copy(), 0.125]),
+    ]
+    # (1) inputs unchanged
+    for name, f, mk in calls:
+        args = mk()
+        before = [a.tobytes() if isinstance(a, np.ndarray) else None for a in args]
+        call(f, *args)
+        for i, (a, b) in enumerate(zip(args, before)):
+            if b is not None and a.tobytes() != b:
+                bad(f"{name} modifies its argument #{i + 1} in place", {"law": "inputs_unchanged", "function": name}, function=name, argument=i + 1)
+        stats["inputs_unchanged_checks"] += 1
+
+    # (2) aliased arguments: same object / reversed view / overlapping windows of one buffer
+    n = x0.size
+    buf = np.concatenate([x0, y20[:1]]) if n >= 1 else x0.copy()
+    alias_cases = [
+        ("the same array passed twice", lambda: (lambda a: (a, a))(x0.copy())),
+        ("second argument is a reversed view of the first", lambda: (lambda a: (a, a[::-1]))(x0.copy())),
+        ("overlapping windows of one buffer", lambda: (lambda b: (b[:n], b[1:n + 1]))(buf.copy())),
+    ]
+    two_arg = [
+        ("sort_array_like_another_one", U.sort_array_like_another_one, ()),
+        ("ecdf", M.ecdf, (em,)),
+        ("quantile_map_x_on_y_non_parametically", M.quantile_map_x_on_y_non_parametically, ("normal", em, im)),
+    ]
+    for how, mk in alias_cases:
+        for name, f, extra in two_arg:
+            a, b = mk()
+            want = call(f, a.copy(), b.copy(), *extra)
+            got = call(f, a, b, *extra)
+            stats["aliasing_checks"] += 1
+            if not same(got, want):
+                bad(f"{name}: with {how} the result {got.tolist()[:6]} differs from the result on independent copies {want.tolist()[:6]}",
+                    {"law": "aliasing", "function": name}, function=name, aliasing=how)
+    a = x0.copy()
+    got = call(M.quantile_map_non_parametically_with_constant_extrapolation, a, y0, a, em, im)
+    want = call(M.quantile_map_non_parametically_with_constant_extrapolation, x0.copy(), y0.copy(), x0.copy(), em, im)
+    if not same(got, want):
+        bad("quantile_map_non_parametically_with_constant_extrapolation(x, y, vals=x): result differs from the call on independent copies",
+            {"law": "aliasing", "function": "qmapx"}, function="qmapx", aliasing="vals is x")
+
+    # (3) call sequences on the same array objects
+    xa, ya = x0.copy(), y20.copy()
+    r1 = call(U.sort_array_like_another_one, xa, ya)
+    r2 = call(U.sort_array_like_another_one, ya, xa)
+    r3 = call(U.sort_array_like_another_one, xa, ya)
+    w1 = call(U.sort_array_like_another_one, x0.copy(), y20.copy())
+    w2 = call(U.sort_array_like_another_one, y20.copy(), x0.copy())
+    stats["sequence_checks"] += 1
+    if not (same(r1, w1) and same(r2, w2) and same(r3, w1)):
+        bad(f"sort_array_like_another_one: the sequence f(x,y), f(y,x), f(x,y) on the same arrays gives {r2.tolist()[:6]} for the second call, "
+            f"fresh copies give {w2.tolist()[:6]}", {"law": "call_sequence", "function": "sort_array_like_another_one"}, function="sort_array_like_another_one")
+    xa, ya, va = x0.copy(), y0.copy(), vals0.copy()
+    q1 = call(M.quantile_map_non_parametically_with_constant_extrapolation, xa, ya, va, em, im)
+    q2 = call(M.quantile_map_non_parametically, xa, ya, va, em, im)
+    q3 = call(M.quantile_map_non_parametically_with_constant_extrapolation, xa, ya, va, em, im)
+    if not same(q1, q3) or not same(q2, call(M.quantile_map_non_parametically, x0.copy(), y0.copy(), vals0.copy(), em, im)):
+        bad("quantile maps: repeating the calls on the same arrays changes the result", {"law": "call_sequence", "function": "qmap"}, function="qmap")
+
+
 # ------------------------------------------------------------------ the check
 def run(tier, res, force_search=False):
     import collections
@@ -414,7 +509,8 @@ def run(tier, res, force_search=False):
         "first edge <= min x) are re-checked on numpy's actual bins on every run",
         "float rounding is not modelled; at discontinuities of the exact map (floor / discrete virtual index at an integer, np.interp at a tied computed knot) either neighbour is accepted and counted (ties_accepted)",
     ]
-    res.assumptions = ["samples are finite floats; probabilities lie in [0,1]", "the target sample y is float64 (source / values may be float32 or int64)", "sample size >= 2 for the distribution-function laws (size 1 is stated separately: Props.C16.ecdf_size_one_*, iecdf_size_one)",
+    res.assumptions = ["purity / aliasing / call-sequence behaviour of the helpers (inputs unchanged, result independent of shared memory) is checked by the oracle on the real functions only: the Lean model is value-level and cannot exhibit it",
+                       "samples are finite floats; probabilities lie in [0,1]", "the target sample y is float64 (source / values may be float32 or int64)", "sample size >= 2 for the distribution-function laws (size 1 is stated separately: Props.C16.ecdf_size_one_*, iecdf_size_one)",
                        "tie-free source for the equal-size reproduction law; tie-free reference for the exact comparison of sort_array_like_another_one"]
 
     lean_ok = C.lean_phase(res, PROP, GEN, TARGETS)
@@ -431,8 +527,13 @@ def run(tier, res, force_search=False):
         x, y = c["x"], c["y"]
         res.count((x.size, y.size, c["kind_x"], c["scale"], c["dtype"], np.unique(x).size < x.size, np.unique(y).size < y.size),
                   np.unique(x).size >= 2, sample={"x": x.tolist()[:6], "y": y.tolist()[:6], "scale": c["scale"], "n_vals": int(c["vals"].size), "n_ps": int(c["ps"].size)})
+        oracle_purity(c, problems, stats)  # first: works on copies, before any helper has seen the case's own arrays
+        snap = {a: c[a].tobytes() for a in ("x", "y", "y2", "vals", "ps")}
         correspondence(c, corr)
         oracle(c, problems, stats)
+        for a, b in snap.items():
+            if c[a].tobytes() != b:
+                problems.append((f"a toolkit helper modified the array '{a}' handed to it by the harness", case_json(c), {"law": "inputs_unchanged", "function": "any"}))
     corr.run()
     if corr.mismatches:
         res.tie_broken.append(f"correspondence DrvStats: {len(corr.mismatches)} mismatches, first: {corr.mismatches[0]}")
@@ -445,6 +546,7 @@ def run(tier, res, force_search=False):
         c = gen_case(rng, n_cases + k)
         res.count((c["x"].size, c["y"].size, c["kind_x"], c["scale"], c["dtype"], np.unique(c["x"]).size < c["x"].size, np.unique(c["y"]).size < c["y"].size),
                   np.unique(c["x"]).size >= 2)
+        oracle_purity(c, problems, stats)
         oracle(c, problems, stats)
     res.extra["oracle_stats"] = dict(stats)
     res.extra["exact_pairs_checked"] = [list(p) for p in EXACT_PAIRS]
@@ -452,7 +554,7 @@ def run(tier, res, force_search=False):
     # ---- verdict
     seen = set()
     for desc, case, sig in problems:
-        key = (sig.get("law", sig.get("method")), sig.get("input_dtype"), sig.get("constant_sample"))  # one replay per law, not per method pair
+        key = (sig.get("law", sig.get("method")), sig.get("input_dtype"), sig.get("constant_sample"), sig.get("function"))  # one replay per law, not per method pair
         if key in seen:
             continue
         seen.add(key)
@@ -477,6 +579,7 @@ def replay(data):
              vals=np.array(fi["vals"], dtype=dt), ps=np.array(fi["ps"], dtype=float))
     problems = []
     oracle(c, problems, collections.Counter())
+    oracle_purity(c, problems, collections.Counter())
     want = data.get("signature", {})
     hits = [p for p in problems if all(p[2].get(k) == v for k, v in want.items())]
     for desc, _, sig in hits:
